@@ -190,13 +190,16 @@ type feedback struct{ trunc bool }
 
 func (f *feedback) SetTruncated() { f.trunc = true }
 
+var sharedBuf = &countBuf{SerializeBuffer: gopacket.NewSerializeBuffer()}
+
 type caseT struct {
-	src, name string
-	hex       string // the input a decoded layer came from (replay)
-	ls        []gopacket.SerializableLayer
-	payload   []byte
-	single    bool                  // decode as the layer's own type (else: a stack from Ethernet)
-	net       gopacket.NetworkLayer // pseudo header for single layers
+	reuse, freshBuf bool // force the shared / a new buffer
+	src, name       string
+	hex             string // the input a decoded layer came from (replay)
+	ls              []gopacket.SerializableLayer
+	payload         []byte
+	single          bool                  // decode as the layer's own type (else: a stack from Ethernet)
+	net             gopacket.NetworkLayer // pseudo header for single layers
 }
 
 func short(s string) string {
@@ -228,7 +231,12 @@ func roundTrip(tr *vh.Trace, sc int, c *caseT, st map[string]int) {
 		all = append(all, recs[i])
 	}
 	all = append(all, gopacket.Payload(c.payload))
-	buf := &countBuf{SerializeBuffer: gopacket.NewSerializeBuffer()}
+	// two of three cases write into ONE buffer that every earlier case of this run used (for its first and its
+	// second serialization): SerializeLayers clears it, so the result must not depend on what it held or recorded
+	buf := sharedBuf
+	if c.freshBuf || (sc%3 == 0 && !c.reuse) {
+		buf = &countBuf{SerializeBuffer: gopacket.NewSerializeBuffer()}
+	}
 	var err error
 	msg, site, pan := vh.Guard(func() { err = gopacket.SerializeLayers(buf, bothOpts, all...) })
 	ev := vh.M{"op": "ser", "sc": sc, "src": c.src, "name": c.name, "hex": c.hex, "err": "", "n": 0, "d": "", "plen": len(c.payload),
@@ -364,7 +372,7 @@ func roundTrip(tr *vh.Trace, sc int, c *caseT, st map[string]int) {
 	}
 
 	// serialize the decoded layers once more
-	buf2 := gopacket.NewSerializeBuffer()
+	var buf2 gopacket.SerializeBuffer = buf
 	var err2 error
 	msg, site, pan = vh.Guard(func() {
 		if c.single {
@@ -475,14 +483,20 @@ func runC06(tr *vh.Trace, n int, seed uint64, shapesFile, stacksFile string, max
 			roundTrip(tr, sc, &caseT{src: "gen", name: fmt.Sprintf("big:%s:%d", name, n), ls: []gopacket.SerializableLayer{l},
 				payload: genPayload(r, n), single: true, net: net}, st)
 		}
-		for _, n := range []int{65535, 65536, 70001} {
+		// around every 16-bit length limit: IPv6 payload length 65535 with and without (8 bytes of) hop-by-hop,
+		// UDP length 65535 = 8 + 65527 over IPv6 (jumbo: length 0) and over IPv4
+		for _, n := range []int{65534, 65535, 65536, 70001} {
 			big("IPv6", genIPv6(r, 253, false, nil), nil, n)
+		}
+		for _, n := range []int{65526, 65527, 65528, 65535, 65536, 70001} {
 			big("IPv6+hbh", genIPv6(r, 253, true, [][]int{{5, 2, 2, 0}}), nil, n)
 		}
-		for _, n := range []int{65527, 65528, 70001} {
+		for _, n := range []int{65526, 65527, 65528, 65529, 65531, 65535, 65536, 70001} {
 			big("UDP/v6", genUDP(r), v6net, n)
 		}
-		big("UDP/v4", genUDP(r), defaultNet, 65507)
+		for _, n := range []int{65507, 65527, 65528} {
+			big("UDP/v4", genUDP(r), defaultNet, n)
+		}
 		big("IPv4", genIPv4(r, nil, 253), nil, 65515)
 		big("IPv4+opts", genIPv4(r, [][]int{{148, 4}}, 253), nil, 65511)
 		big("TCP", genTCP(r, [][]int{{2, 4}}), defaultNet, 65495)
@@ -520,6 +534,31 @@ func runC06(tr *vh.Trace, n int, seed uint64, shapesFile, stacksFile string, max
 			roundTrip(tr, sc, &caseT{src: "stack", name: string(line), ls: ls, payload: genPayload(r, b.Pl)}, st)
 			_ = names
 		})
+		// reuse sequences in the shared buffer: a stack with a STAND-ALONE hop-by-hop layer is written (it is
+		// recorded in Layers()), then stacks whose IPv6 layer carries its hop-by-hop header itself are round-tripped:
+		// a small one, a built jumbogram (its decoded form is written into the same buffer by Ser2 - again with a
+		// stand-alone hop-by-hop layer), another built jumbogram
+		if !noBig && pi == 0 {
+			e6 := func() *layers.Ethernet {
+				return &layers.Ethernet{SrcMAC: mac(r), DstMAC: mac(r), EthernetType: layers.EthernetTypeIPv6}
+			}
+			for round := 0; round < 2; round++ {
+				x6 := genIPv6(r, 0, false, nil)
+				xu := genUDP(r)
+				setNet(xu, x6)
+				vh.Guard(func() {
+					gopacket.SerializeLayers(sharedBuf, bothOpts, e6(), x6, genHopByHop(r, [][]int{{5, 2, 2, 0}}, 17), xu, gopacket.Payload(genPayload(r, 100)))
+				})
+				for k, n := range []int{40, 70001, 65536} {
+					sc++
+					i6 := genIPv6(r, 17, k == 0, [][]int{{5, 2, 2, 0}})
+					u := genUDP(r)
+					setNet(u, i6)
+					roundTrip(tr, sc, &caseT{src: "stack", reuse: true, name: fmt.Sprintf("seq%d:after-standalone-hbh:Ethernet/IPv6/UDP:%d", round, n),
+						ls: []gopacket.SerializableLayer{e6(), i6, u}, payload: genPayload(r, n)}, st)
+				}
+			}
+		}
 		// one jumbogram stack
 		if !noBig && mine() {
 			sc++
